@@ -3,7 +3,9 @@ import SunriseVerif.Props.C04RefineLoop
 /-!
 Helper lemmas for `Props/C04Store.lean`: sums of position liquidity over the position store of `Model/CL.lean`, the effect
 of the position writes of `UpdatePosition` on them, the sorted tick store, frames of the handlers that do not touch the
-bookkeeping.
+bookkeeping; for swaps: `swap_inv_ok` (all derived operations admissible), `swap_guarded_of_moves` / `swap_inv_ok'` (the
+CROSS guards proved from the sorted tick store without empty ticks — only the `moveWithin` guards assumed),
+`swap_written_back_live` / `swap_H2_of_tickPrices` (liveness of the written-back pool from non-zero tick prices).
 -/
 namespace Sunrise.C04StoreL
 open Sunrise Sunrise.CL Sunrise.C04Refine
@@ -1687,5 +1689,452 @@ theorem guardedB_sound (ts : List Int) : ∀ (ops : List CLBook.Op) (b : CLBook.
       rcases hg with hg | hg
       · exact Or.inl ⟨hg.1, fun u h1 h2 => freeB_sound hg.2 h0 u (by simp [h1, h2])⟩
       · exact Or.inr ⟨hg.1, fun u h1 h2 => freeB_sound hg.2 h0 u (by simp [h1, h2])⟩
+
+/-! ### the CROSS guards of a swap trace follow from the sorted tick store without empty ticks -/
+
+/-- `t` lies beyond the cursor `c` in trade direction (base-for-quote goes down and may cross the cursor tick itself) -/
+def beyond (bfq : Bool) (c t : Int) : Prop := if bfq then t ≤ c else c < t
+
+/-- strict order of the tick iterator in trade direction -/
+def dirLt (bfq : Bool) (a b : Int) : Prop := if bfq then b < a else a < b
+
+/-- the crossing operation of the trade direction -/
+def crossOp (bfq : Bool) (t : Int) : CLBook.Op := if bfq then .crossDown t else .crossUp t
+
+/-- **what the remaining tick iterator `rem` is for the abstraction `b`**: strictly sorted in trade direction, every tick in
+    it lies beyond the cursor and is initialised (gross ≠ 0), every initialised tick beyond the cursor is in it -/
+structure IterOK (bfq : Bool) (b : CLBook.St) (rem : List Int) : Prop where
+  sorted : rem.Pairwise (dirLt bfq)
+  beyond : ∀ t ∈ rem, beyond bfq b.tick t ∧ b.gross t ≠ 0
+  complete : ∀ u, b.gross u ≠ 0 → C04StoreL.beyond bfq b.tick u → u ∈ rem
+
+/-- crossing the head of the iterator is admissible and leaves the tail as the iterator of the new state -/
+theorem iterOK_cross {bfq : Bool} {b : CLBook.St} {t : Int} {rest : List Int} (h : IterOK bfq b (t :: rest)) :
+    (crossOp bfq t).guard b ∧ IterOK bfq (CLBook.step b (crossOp bfq t)) rest := by
+  obtain ⟨hs, hb, hc⟩ := h
+  have hs' := List.pairwise_cons.mp hs
+  have ht := hb t List.mem_cons_self
+  cases bfq
+  · simp only [C04StoreL.beyond, dirLt, crossOp, Bool.false_eq_true, if_false] at *
+    refine ⟨⟨ht.1, ?_⟩, ⟨hs'.2, ?_, ?_⟩⟩
+    · intro u h1 h2
+      by_cases hg : b.gross u = 0
+      · exact hg
+      · exfalso
+        rcases List.mem_cons.mp (hc u hg h1) with e | hm
+        · omega
+        · have := hs'.1 u hm; omega
+    · intro t' ht'
+      exact ⟨hs'.1 t' ht', (hb t' (List.mem_cons_of_mem _ ht')).2⟩
+    · intro u hg hu
+      have hu' : t < u := hu
+      rcases List.mem_cons.mp (hc u hg (by omega)) with e | hm
+      · omega
+      · exact hm
+  · simp only [C04StoreL.beyond, dirLt, crossOp, if_true] at *
+    refine ⟨⟨ht.1, ?_⟩, ⟨hs'.2, ?_, ?_⟩⟩
+    · intro u h1 h2
+      by_cases hg : b.gross u = 0
+      · exact hg
+      · exfalso
+        rcases List.mem_cons.mp (hc u hg h2) with e | hm
+        · omega
+        · have := hs'.1 u hm; omega
+    · intro t' ht'
+      have := hs'.1 t' ht'
+      refine ⟨?_, (hb t' (List.mem_cons_of_mem _ ht')).2⟩
+      show t' ≤ t - 1
+      omega
+    · intro u hg hu
+      have hu' : u ≤ t - 1 := hu
+      rcases List.mem_cons.mp (hc u hg (by omega)) with e | hm
+      · omega
+      · exact hm
+
+/-- an ADMISSIBLE cursor move inside a bucket keeps the iterator -/
+theorem iterOK_move {bfq : Bool} {b : CLBook.St} {t' : Int} {rem : List Int} (h : IterOK bfq b rem)
+    (hg : (CLBook.Op.moveWithin t').guard b) : IterOK bfq (CLBook.step b (CLBook.Op.moveWithin t')) rem := by
+  obtain ⟨hs, hb, hc⟩ := h
+  refine ⟨hs, ?_, ?_⟩
+  · intro t ht
+    obtain ⟨h1, h2⟩ := hb t ht
+    refine ⟨?_, h2⟩
+    show C04StoreL.beyond bfq t' t
+    cases bfq
+    · simp only [C04StoreL.beyond, Bool.false_eq_true, if_false] at *
+      rcases hg with ⟨g1, g2⟩ | ⟨g1, g2⟩
+      · by_cases c : t ≤ t'
+        · exact absurd (g2 t h1 c) h2
+        · omega
+      · omega
+    · simp only [C04StoreL.beyond, if_true] at *
+      rcases hg with ⟨g1, g2⟩ | ⟨g1, g2⟩
+      · omega
+      · by_cases c : t' < t
+        · exact absurd (g2 t c h1) h2
+        · omega
+  · intro u hgu hu
+    have hu' : C04StoreL.beyond bfq t' u := hu
+    apply hc u hgu
+    cases bfq
+    · simp only [C04StoreL.beyond, Bool.false_eq_true, if_false] at *
+      rcases hg with ⟨g1, g2⟩ | ⟨g1, g2⟩
+      · omega
+      · by_cases c : u ≤ b.tick
+        · exact absurd (g2 u hu' c) hgu
+        · omega
+    · simp only [C04StoreL.beyond, if_true] at *
+      rcases hg with ⟨g1, g2⟩ | ⟨g1, g2⟩
+      · by_cases c : b.tick < u
+        · exact absurd (g2 u c hu') hgu
+        · omega
+      · omega
+
+/-- the guard of a cursor move inside a bucket; nothing for the other operations -/
+def moveGuard (b : CLBook.St) : CLBook.Op → Prop
+  | .moveWithin t => (CLBook.Op.moveWithin t).guard b
+  | _ => True
+
+/-- every `moveWithin` of the list is admissible in the state it is applied to (NOTHING is asked of the crossings) -/
+def GuardedMoves : List CLBook.Op → CLBook.St → Prop
+  | [], _ => True
+  | op :: r, b => moveGuard b op ∧ GuardedMoves r (CLBook.step b op)
+
+theorem guardedMoves_of_guarded : ∀ (ops : List CLBook.Op) (b : CLBook.St), Guarded ops b → GuardedMoves ops b := by
+  intro ops
+  induction ops with
+  | nil => intro b _; trivial
+  | cons op r ih =>
+    intro b h
+    refine ⟨?_, ih _ h.2⟩
+    cases op <;> first | exact h.1 | trivial
+
+open Sunrise.C04RefineLoop in
+/-- **trace-level induction.** if the crossings of a trace are a prefix of an iterator that is `IterOK` for the
+    abstraction, and the `moveWithin` operations of the trace are admissible, then ALL its operations are admissible:
+    each crossing is of the next initialised tick in trade direction -/
+theorem guarded_of_moves (bfq : Bool) : ∀ (evs : List SwapEv) (b : CLBook.St) (rem : List Int), IterOK bfq b rem →
+    crossed evs <+: rem.map (fun t => (!bfq, t)) → GuardedMoves (bookOps evs) b → Guarded (bookOps evs) b := by
+  intro evs
+  induction evs with
+  | nil => intro b rem _ _ _; trivial
+  | cons e es ih =>
+    intro b rem hJ hpre hm
+    cases e with
+    | fee f => exact ih b rem hJ hpre hm
+    | step n a o => exact ih b rem hJ hpre hm
+    | move t =>
+      have e : bookOps (SwapEv.move t :: es) = CLBook.Op.moveWithin t :: bookOps es := rfl
+      rw [e] at hm ⊢
+      exact ⟨hm.1, ih _ rem (iterOK_move hJ hm.1) hpre hm.2⟩
+    | cross up t =>
+      have e : bookOps (SwapEv.cross up t :: es) = (if up then CLBook.Op.crossUp t else CLBook.Op.crossDown t) :: bookOps es := rfl
+      have ec : crossed (SwapEv.cross up t :: es) = (up, t) :: crossed es := rfl
+      rw [e] at hm ⊢
+      rw [ec] at hpre
+      cases rem with
+      | nil =>
+        rw [List.map_nil] at hpre
+        exact absurd (List.prefix_nil.mp hpre) (List.cons_ne_nil _ _)
+      | cons t0 rest =>
+        rw [List.map_cons, List.cons_prefix_cons] at hpre
+        obtain ⟨he, hpre'⟩ := hpre
+        have e1 : up = !bfq := congrArg Prod.fst he
+        have e2 : t = t0 := congrArg Prod.snd he
+        subst e2
+        have eop : (if up then CLBook.Op.crossUp t else CLBook.Op.crossDown t) = crossOp bfq t := by
+          rw [e1]; cases bfq <;> rfl
+        rw [eop] at hm ⊢
+        obtain ⟨hg, hJ'⟩ := iterOK_cross hJ
+        exact ⟨hg, ih _ rest hJ' hpre' hm.2⟩
+
+theorem mem_tickIter_iff (s : St) (pool : Nat) (cur : Int) (bfq : Bool) (ti : TickInfo) :
+    ti ∈ tickIter s pool cur bfq ↔ ti ∈ s.ticks ∧ ti.pool = pool ∧ beyond bfq cur ti.tick := by
+  unfold tickIter beyond
+  cases bfq
+  · simp only [Bool.false_eq_true, if_false, List.mem_filter, beq_iff_eq, decide_eq_true_eq, gt_iff_lt, and_assoc]
+  · simp only [if_true, List.mem_reverse, List.mem_filter, beq_iff_eq, decide_eq_true_eq, and_assoc]
+
+/-- the ticks of one pool appear in the sorted store in strictly increasing order -/
+theorem pool_ticks_increasing {l : List TickInfo} (hs : TicksSorted l) (pool : Nat) :
+    (l.filter (·.pool == pool)).Pairwise (fun a b => a.tick < b.tick) := by
+  unfold TicksSorted at hs
+  have h0 : l.Pairwise (fun a b => keyLt (keyOf a) (keyOf b)) := List.pairwise_map.mp hs
+  refine (h0.sublist List.filter_sublist).imp_of_mem ?_
+  intro a b ha hb h
+  have pa : a.pool = pool := by simpa using (List.mem_filter.mp ha).2
+  have pb : b.pool = pool := by simpa using (List.mem_filter.mp hb).2
+  unfold keyLt keyOf at h
+  simp only [pa, pb] at h
+  omega
+
+/-- **the iterator built by `tickIter` is `IterOK` for the abstraction of the pool**, in every store satisfying the
+    combined invariant (sorted tick store, no stored tick with gross 0) -/
+theorem iterOK_init {s : St} (hI : Inv s) (pool : Nat) (p : Pool) (bfq : Bool) :
+    IterOK bfq (absBook s pool p) ((tickIter s pool p.tick bfq).map (·.tick)) := by
+  refine ⟨?_, ?_, ?_⟩
+  · rw [List.pairwise_map]
+    have hP := pool_ticks_increasing hI.w.sorted pool
+    unfold tickIter dirLt
+    cases bfq
+    · simp only [Bool.false_eq_true, if_false]
+      exact hP.sublist List.filter_sublist
+    · simp only [if_true]
+      rw [List.pairwise_reverse]
+      exact hP.sublist List.filter_sublist
+  · intro t ht
+    obtain ⟨ti, hti, e⟩ := List.mem_map.mp ht
+    obtain ⟨h1, h2, h3⟩ := (mem_tickIter_iff s pool p.tick bfq ti).mp hti
+    subst e
+    refine ⟨h3, ?_⟩
+    show grossOf s pool ti.tick ≠ 0
+    apply hI.nonEmpty pool ti.tick
+    rw [findTick_isSome_iff]
+    exact List.mem_map.mpr ⟨ti, h1, by unfold keyOf; rw [h2]⟩
+  · intro u hg hu
+    have hg' : grossOf s pool u ≠ 0 := hg
+    have hu' : beyond bfq p.tick u := hu
+    cases hf : findTick s pool u with
+    | none => unfold grossOf at hg'; rw [hf] at hg'; exact absurd rfl hg'
+    | some ti =>
+      have hm := List.mem_of_find?_eq_some hf
+      have hk := List.find?_some hf
+      simp only [Bool.and_eq_true, beq_iff_eq] at hk
+      exact List.mem_map.mpr ⟨ti, (mem_tickIter_iff s pool p.tick bfq ti).mpr ⟨hm, hk.1, by rw [hk.2]; exact hu'⟩, hk.2⟩
+
+open Sunrise.C04RefineLoop in
+/-- **(H1) reduced to the cursor moves.**  In a store satisfying the combined invariant, if the `moveWithin` operations
+    derived from the ghost trace of a successful `computeSwap` are admissible, then all derived operations are: every
+    crossing recorded by the loop is of the next initialised tick in trade direction (sorted store, no empty tick stored,
+    `tickIter` enumerates the stored ticks beyond the cursor, the crossings are a prefix of the iterator). -/
+theorem swap_guarded_of_moves {exactIn : Bool} {s s1 : St} {pool : Nat} {denomIn denomOut : Denom} {amount : Int}
+    {fee mLimit : Dec} {o : SwapOut} {p : Pool} (hI : Inv s) (hp : getPool s pool = some p)
+    (hc : computeSwap exactIn s pool denomIn denomOut amount fee mLimit true = .ok (s1, o))
+    (Hm : GuardedMoves (bookOps s1.lastTrace) (absBook s pool p)) : Guarded (bookOps s1.lastTrace) (absBook s pool p) := by
+  obtain ⟨p', acc, lim, s0, ss, hp', hloop, _, _, htr, _⟩ := computeSwap_inv hc
+  have e : p' = p := by rw [hp] at hp'; exact (Option.some.inj hp').symm
+  subst e
+  obtain ⟨evs, hevs, hpre⟩ := swapLoop_trace_cross_prefix _ _ _ _ _ _ _ hloop
+  have hevs' : evs = ss.trace := by
+    rw [hevs]; simp [C05Loop.ss0Of]
+  rw [htr, ← hevs'] at Hm ⊢
+  refine guarded_of_moves (decide (denomIn = p'.base)) evs _ _ (iterOK_init hI pool p' _) ?_ Hm
+  rw [List.map_map]
+  exact hpre
+
+open Sunrise.C04RefineLoop in
+/-- **a successful swap keeps the invariant**, provided (H1') the CURSOR MOVES INSIDE A BUCKET derived from the swap's ghost
+    trace are admissible in `CLBook` (they pass no initialised tick) and (H2) the pool written back is live or has no
+    position.  The admissibility of the crossings is proved (`swap_guarded_of_moves`). -/
+theorem swap_inv_ok' {exactIn : Bool} {s s1 s' : St} {pool : Nat} {denomIn denomOut : Denom} {amount : Int} {fee mLimit : Dec}
+    {o : SwapOut} {p : Pool} {b : Bank} (hI : Inv s) (hp : getPool s pool = some p)
+    (hc : computeSwap exactIn s pool denomIn denomOut amount fee mLimit true = .ok (s1, o))
+    (hs' : s' = setPool { s1 with bank := b } { p with liq := o.liq, tick := o.tick, sqrtP := o.sqrtP })
+    (H1 : GuardedMoves (bookOps s'.lastTrace) (absBook s pool p))
+    (H2 : ∀ q, getPool s' pool = some q → poolLive q = false → poolHasPosition s' pool = false) :
+    Inv s' := by
+  have hlt : s'.lastTrace = s1.lastTrace := by rw [hs']; rfl
+  refine swap_inv_ok hI hp hc hs' ?_ H2
+  rw [hlt] at H1 ⊢
+  exact swap_guarded_of_moves hI hp hc H1
+
+/-! ### (H2) the written-back pool is live: reduced to "the prices of the pool's initialised ticks are not zero" -/
+
+/-- the (price, cursor) pair of the swap state is live in the sense of `poolLive` -/
+def LiveSS (ss : SwapState) : Prop := ¬ (ss.sqrtP.isZero = true ∧ ss.tick = 0)
+
+open Sunrise.C05Loop (settleK) in
+theorem settleK_live {β : Type} {bfq upd : Bool} {lim fee : Dec} {tp : TickMath.TickParams} {accVal : DecCoins}
+    {denomIn : Denom} {s : St} {start tickPrice next : Dec} {ss2 : SwapState} {ti : TickInfo} {rest : List TickInfo}
+    {K : St × SwapState × List TickInfo → Res β} {x : β}
+    (h : settleK bfq upd lim fee tp accVal denomIn s start tickPrice next ss2 ti rest K = .ok x)
+    (hp : ss2.sqrtP = next) (hstart : start = next → LiveSS ss2) (htp : tickPrice.isZero = false) :
+    ∃ s3 ss3 iter3, K (s3, ss3, iter3) = .ok x ∧ LiveSS ss3 ∧ (iter3 = rest ∨ iter3 = ti :: rest) := by
+  unfold settleK at h
+  by_cases heq : (tickPrice == next) = true
+  · rw [if_pos heq] at h
+    have heq' : tickPrice = next := by simpa using heq
+    obtain ⟨p, hpp, hK⟩ := bind_ok h
+    have hpp' : crossTick s ss2 bfq lim fee ti accVal denomIn upd = .ok (p.1, p.2) := hpp
+    obtain ⟨_, _, hsq, _, _⟩ := crossTick_effect hpp'
+    refine ⟨p.1, p.2, rest, hK, ?_, Or.inl rfl⟩
+    intro hc
+    rw [hsq, hp, ← heq', htp] at hc
+    exact absurd hc.1 (by decide)
+  · rw [if_neg heq] at h
+    by_cases hord : (if bfq = true then tickPrice.raw > next.raw else tickPrice.raw < next.raw)
+    · rw [if_pos hord] at h; cases h
+    · rw [if_neg hord] at h
+      by_cases hmv : (!(start == next)) = true
+      · rw [if_pos hmv] at h
+        obtain ⟨t, ht, hK⟩ := bind_ok h
+        refine ⟨_, _, _, hK, ?_, Or.inr rfl⟩
+        intro hc
+        have hz := sqrtPriceToTick_ne_zero ht
+        have hc1 : ss2.sqrtP.isZero = true := hc.1
+        rw [hp, hz] at hc1
+        exact absurd hc1 (by decide)
+      · rw [if_neg hmv] at h
+        have hse : start = next := by simpa using hmv
+        exact ⟨_, _, _, h, hstart hse, Or.inr rfl⟩
+
+open Sunrise.C04RefineLoop Sunrise.C05Loop in
+/-- **the swap loop keeps the (price, cursor) pair live**, provided the prices of the ticks of the iterator are not zero:
+    a crossing sets the price to the (non-zero) tick price, a cursor move inside a bucket is computed by `sqrtPriceToTick`,
+    which fails on price 0, and a step that moves nothing keeps price and cursor -/
+theorem swapLoop_live {exactIn bfq upd : Bool} {lim fee : Dec} {tp : TickMath.TickParams} {accVal : DecCoins} {denomIn : Denom} :
+    ∀ (fuel noProg : Nat) (s : St) (ss : SwapState) (iter : List TickInfo) (s' : St) (ss' : SwapState),
+      LiveSS ss → (∀ ti ∈ iter, ∀ v, TickMath.tickToSqrtPrice ti.tick tp = .ok v → v.isZero = false) →
+      swapLoop exactIn bfq upd lim fee tp accVal denomIn fuel noProg s ss iter = .ok (s', ss') → LiveSS ss' := by
+  intro fuel
+  induction fuel with
+  | zero => intro noProg s ss iter s' ss' _ _ h; rw [swapLoop_zero] at h; cases h
+  | succ fuel ih =>
+    intro noProg s ss iter s' ss' hl hit h
+    rw [swapLoop_succ_eq] at h
+    split at h
+    · have e := res_ok_inj h
+      have e2 : ss = ss' := congrArg Prod.snd e
+      rw [← e2]; exact hl
+    · cases iter with
+      | nil => cases h
+      | cons ti rest =>
+        simp only [] at h
+        obtain ⟨tickPrice, hT, h⟩ := wrapTickK_ok h
+        obtain ⟨r, _, h⟩ := bind_ok h
+        split at h
+        · cases h
+        · obtain ⟨_, _, h3⟩ := ss2Of_book exactIn upd ss r
+          have hsq := (ss2Of_facts exactIn upd ss r).1
+          have hstart : ss.sqrtP = r.1 → LiveSS (ss2Of exactIn upd ss r) := by
+            intro e hc
+            apply hl
+            rw [hsq, h3] at hc
+            rw [e]; exact hc
+          obtain ⟨s3, ss3, iter3, hK, hl3, hi3⟩ :=
+            settleK_live h hsq hstart (hit ti List.mem_cons_self tickPrice hT)
+          have hit3 : ∀ tj ∈ iter3, ∀ v, TickMath.tickToSqrtPrice tj.tick tp = .ok v → v.isZero = false := by
+            rcases hi3 with e | e
+            · rw [e]; exact fun tj hj => hit tj (List.mem_cons_of_mem _ hj)
+            · rw [e]; exact hit
+          simp only [] at hK
+          by_cases hz : (if exactIn = true then amtInOf exactIn r else amtOutOf exactIn r).isZero = true
+          · rw [if_pos hz] at hK
+            by_cases hn : noProg ≥ 100
+            · rw [if_pos hn] at hK; cases hK
+            · rw [if_neg hn] at hK
+              exact ih _ s3 ss3 iter3 s' ss' hl3 hit3 hK
+          · rw [if_neg hz] at hK
+            exact ih _ s3 ss3 iter3 s' ss' hl3 hit3 hK
+
+/-- inversion of a successful `computeSwap` for liveness: the pool is live, the loop run, the reported price and cursor -/
+theorem computeSwap_inv_live {exactIn : Bool} {s : St} {pool : Nat} {denomIn denomOut : Denom} {amount : Int} {fee mLimit : Dec}
+    {upd : Bool} {s2 : St} {o : SwapOut} (h : computeSwap exactIn s pool denomIn denomOut amount fee mLimit upd = .ok (s2, o)) :
+    ∃ (p : Pool) (acc : Accum) (lim : Dec) (s1 : St) (ss : SwapState), getPool s pool = some p ∧ poolLive p = true ∧
+      swapLoop exactIn (decide (denomIn = p.base)) upd lim fee p.tp acc.value denomIn LOOP_FUEL 0 s (C05Loop.ss0Of p amount)
+          (tickIter s pool p.tick (decide (denomIn = p.base))) = .ok (s1, ss) ∧
+      o.tick = ss.tick ∧ o.sqrtP = ss.sqrtP := by
+  rw [C05Loop.computeSwap_eq] at h
+  cases hp : getPool s pool with
+  | none => rw [hp] at h; cases h
+  | some p =>
+    rw [hp] at h
+    simp only [] at h
+    obtain ⟨hlive, h⟩ := ite_err_ok h
+    obtain ⟨_, h⟩ := ite_err_ok h
+    obtain ⟨_, h⟩ := ite_err_ok h
+    obtain ⟨_, h⟩ := ite_err_ok h
+    cases ha : getAccum s pool with
+    | none => rw [ha] at h; cases h
+    | some acc =>
+      rw [ha] at h
+      simp only [] at h
+      obtain ⟨lim, _, h⟩ := bind_ok h
+      obtain ⟨_, h⟩ := ite_err_ok h
+      obtain ⟨x, hx, h⟩ := bind_ok h
+      obtain ⟨_, h⟩ := ite_err_ok h
+      have h' := res_ok_inj h
+      have e2 : o = (C05Loop.finishSwap exactIn upd acc denomIn amount x.1 x.2).2 := (congrArg Prod.snd h').symm
+      refine ⟨p, acc, lim, x.1, x.2, rfl, by simpa using hlive, hx, ?_, ?_⟩
+      · rw [e2]; cases exactIn <;> rfl
+      · rw [e2]; cases exactIn <;> rfl
+
+/-- **price-grid boundary for (H2)**: the sqrt prices of the initialised ticks of the pool (computed with the pool's tick
+    parameters) are not zero -/
+def TickPricesNonZero (s : St) (pool : Nat) : Prop :=
+  ∀ p, getPool s pool = some p → ∀ ti ∈ s.ticks, ti.pool = pool →
+    ∀ v, TickMath.tickToSqrtPrice ti.tick p.tp = .ok v → v.isZero = false
+
+/-- **(H2) from the tick prices**: after a successful `computeSwap` on a pool whose initialised ticks have non-zero prices,
+    the record written back is live -/
+theorem swap_written_back_live {exactIn : Bool} {s s1 : St} {pool : Nat} {denomIn denomOut : Denom} {amount : Int}
+    {fee mLimit : Dec} {upd : Bool} {o : SwapOut} {p : Pool} (hp : getPool s pool = some p)
+    (hc : computeSwap exactIn s pool denomIn denomOut amount fee mLimit upd = .ok (s1, o))
+    (hT : TickPricesNonZero s pool) :
+    poolLive { p with liq := o.liq, tick := o.tick, sqrtP := o.sqrtP } = true := by
+  obtain ⟨p', acc, lim, s0, ss, hp', hlive, hloop, hot, hos⟩ := computeSwap_inv_live hc
+  have e : p' = p := by rw [hp] at hp'; exact (Option.some.inj hp').symm
+  subst e
+  have h0 : LiveSS (C05Loop.ss0Of p' amount) := by
+    intro hcz
+    unfold poolLive at hlive
+    simp only [C05Loop.ss0Of] at hcz
+    simp [hcz.1, hcz.2] at hlive
+  have hit : ∀ ti ∈ tickIter s pool p'.tick (decide (denomIn = p'.base)), ∀ v,
+      TickMath.tickToSqrtPrice ti.tick p'.tp = .ok v → v.isZero = false := by
+    intro ti hti
+    obtain ⟨h1, h2, _⟩ := (mem_tickIter_iff s pool p'.tick _ ti).mp hti
+    exact hT p' hp ti h1 h2
+  have hl := swapLoop_live _ _ _ _ _ _ _ h0 hit hloop
+  unfold poolLive
+  simp only [hot, hos]
+  unfold LiveSS at hl
+  cases hz : ss.sqrtP.isZero with
+  | false => simp
+  | true =>
+    have : ss.tick ≠ 0 := fun e => hl ⟨hz, e⟩
+    simp [this]
+
+open Sunrise.C04RefineLoop in
+/-- **(H2) of the swap theorems from (T)**: in a store satisfying the invariant, if the initialised ticks of the pool have
+    non-zero prices, the pool record written back by a successful swap is live -/
+theorem swap_H2_of_tickPrices {exactIn : Bool} {s s1 s' : St} {pool : Nat} {denomIn denomOut : Denom} {amount : Int}
+    {fee mLimit : Dec} {o : SwapOut} {p : Pool} {b : Bank} (hI : Inv s) (hp : getPool s pool = some p)
+    (hc : computeSwap exactIn s pool denomIn denomOut amount fee mLimit true = .ok (s1, o))
+    (hs' : s' = setPool { s1 with bank := b } { p with liq := o.liq, tick := o.tick, sqrtP := o.sqrtP })
+    (hT : TickPricesNonZero s pool) :
+    ∀ q, getPool s' pool = some q → poolLive q = false → poolHasPosition s' pool = false := by
+  obtain ⟨p', acc, lim, s0, ss, hp', hloop, _, _, _, f1, _⟩ := computeSwap_inv hc
+  have e : p' = p := by rw [hp] at hp'; exact (Option.some.inj hp').symm
+  subst e
+  have hnd := sorted_keys_nodup s.ticks hI.w.sorted
+  obtain ⟨it1, it2, it3⟩ := tickIter_hyps s pool p'.tick (decide (denomIn = p'.base)) hnd
+  obtain ⟨_, _, hfr⟩ := swapLoop_book_master pool _ _ _ _ _ _ _ it1 it2 it3 hloop
+  have hpools1 : ({ s1 with bank := b } : St).pools = s.pools := f1.trans hfr.1
+  have hget : getPool s' pool = some { p' with liq := o.liq, tick := o.tick, sqrtP := o.sqrtP } := by
+    rw [hs']; exact C04Interval.getPool_setPool (s := s) hp hpools1 rfl
+  intro q hq hl
+  rw [hget] at hq
+  have e := Option.some.inj hq
+  subst e
+  rw [swap_written_back_live hp hc hT] at hl
+  cases hl
+
+/-- executable form of `TickPricesNonZero` -/
+def tickPricesNonZeroB (s : St) (pool : Nat) : Bool :=
+  match getPool s pool with
+  | some p => (s.ticks.filter (·.pool == pool)).all fun ti =>
+      match TickMath.tickToSqrtPrice ti.tick p.tp with
+      | .ok v => !v.isZero
+      | _ => true
+  | none => true
+
+theorem tickPricesNonZeroB_sound {s : St} {pool : Nat} (h : tickPricesNonZeroB s pool = true) : TickPricesNonZero s pool := by
+  intro p hp ti hti hpl v hv
+  unfold tickPricesNonZeroB at h
+  rw [hp] at h
+  have := List.all_eq_true.mp h ti (List.mem_filter.mpr ⟨hti, by simp [hpl]⟩)
+  rw [hv] at this
+  simpa using this
 
 end Sunrise.C04StoreL
